@@ -51,6 +51,7 @@ OpJudge(recs, e, O) ==
     [] e.op = "complement" -> JudgeComplement(recs[e.src], O)
     [] e.op = "transcribe" -> JudgeTranscribe(recs[e.src], O)
     [] e.op = "concat"     -> JudgeConcat([j \in 1..Len(e.srcs) |-> recs[e.srcs[j]]], O)
+    [] e.op \in {"repair", "filter", "finsert"} -> {}   \* judged by Repair.tla / Select.tla
     [] OTHER               -> If(~SameObs(O.raw, recs[e.src].raw), V("identity", "-"))
 
 \* what the calculus layer predicts for a library call on the RAW records
